@@ -1,6 +1,7 @@
 """C05 A mask is equivalent to filtering the rows first (metamorphic, two relations)."""
 import copy
 
+import numpy as np
 from hypothesis import strategies as st
 
 from .. import data, gbops, model, ops
@@ -13,7 +14,8 @@ RULE = (
     "variants, cumulative, rolling, shift/diff, EMA row- and time-weighted, cumcount), a key layout (contiguous, or "
     "chunk-wise factorized with the threshold scaled down, where masks are split per key chunk) and a mask of a kind that operation accepts (boolean "
     "array or Series, slice with negative/open bounds, integer positions incl. repeats and unsorted; forced: "
-    "all-false, all-true, prefix/suffix masks that empty a group).  Relation 1: op(K,V,mask=m) vs op(K[m],V[m]); "
+    "all-false, all-true, prefix/suffix masks that empty a group); in a third of the cases the examined call is the "
+    "second or third masked call on the same grouping object (one boolean buffer refilled in place).  Relation 1: op(K,V,mask=m) vs op(K[m],V[m]); "
     "relation 2: re-draw values (and for reductions keys) at unselected rows.  Non-trivial = the mask selects a "
     "proper non-empty subset AND the masked result differs from the unmasked one.  Distinct = case hash."
 )
@@ -54,23 +56,47 @@ def case_strategy(draw, variant):
     if vspec["dtype"].startswith(("M8", "m8")) and vspec["dtype"].endswith("[ns]"):
         alt_vals = [None if x is None else x % (2 * 10**17) for x in alt_vals]
     alt_keys = draw(S.keys(n, nkeys=(len(keys), len(keys)))) if o.kind == "red" and draw(st.booleans()) else None
-    return {"n": n, "keys": keys, "vals": [vspec], "mask": mask, "op": op, "kw": kw, "layout": layout,
+    # earlier masked calls on the same grouping object (0-2), through one boolean buffer refilled in place when the
+    # examined mask is a NumPy boolean array: "any operation" includes the second and third call of an object
+    prior = []
+    if draw(st.sampled_from([False, False, True])):
+        for _ in range(draw(st.integers(1, 2))):
+            prior.append(draw(S.mask_spec(n, kinds=("bool",)))["vals"])
+    return {"n": n, "keys": keys, "vals": [vspec], "mask": mask, "op": op, "kw": kw, "layout": layout, "prior": prior,
             "threshold": draw(st.integers(1, n)), "key_chunks": draw(st.integers(1, 5)),
             "sort": draw(st.sampled_from([True, True, False])), "alt_vals": alt_vals,
             "alt_keys": [k["vals"] for k in alt_keys] if alt_keys and all(a["t"] == b["t"] for a, b in zip(alt_keys, keys)) else None,
             "render": {"mc": draw(st.sampled_from(["np", "series"])), "vc": draw(st.sampled_from(["np", "series"])), "kc": "np"}}
 
 
-def exec_case(case):
+def _call_with_prior(case, o, gb, v, mask, prior):
+    """The examined call, preceded by masked calls of the same operation on the same object.  When the examined
+    mask is a NumPy boolean array all of them go through ONE buffer that is refilled in place between the calls."""
+    kw = dict(case.get("kw", {}))
+    if prior:
+        shared = isinstance(mask, np.ndarray) and mask.dtype == bool
+        buf = np.empty(case["n"], dtype=bool)
+        for p in prior:
+            buf[:] = p
+            o.call(gb, v, buf if shared else buf.copy(), dict(kw))
+        if shared:
+            buf[:] = mask
+            mask = buf
+    return o.call(gb, v, mask, kw)
+
+
+def exec_case(case, with_prior=False):
     keys, vals, mask, index = gbops.render(case)
     o = ops.OPS[case["op"]]
+    prior = case.get("prior") if with_prior else None
+    v = vals[0] if o.needs_values else None
     if case.get("layout") == "chunkwise":
         # chunk-wise factorized keys (threshold scaled down): masks are split per key chunk there
         with gbops.Shims(threshold=case["threshold"], key_chunks=case["key_chunks"]):
             gb = gbops.build(case, keys)
-            return o.call(gb, vals[0] if o.needs_values else None, mask, dict(case.get("kw", {})))
+            return _call_with_prior(case, o, gb, v, mask, prior)
     gb = gbops.build(case, keys)
-    return o.call(gb, vals[0] if o.needs_values else None, mask, dict(case.get("kw", {})))
+    return _call_with_prior(case, o, gb, v, mask, prior)
 
 
 def filtered(case, positions):
@@ -142,7 +168,7 @@ def check(case, ctx):
     n = case["n"]
     positions = model.select(n, case["mask"])
     tol = 1e-9 if o.float_tol else 0.0
-    res_m = ops.normalise(exec_case(case))
+    res_m = ops.normalise(exec_case(case, with_prior=True))
     unmasked = dict(case, mask=None)
     proper = 0 < len(set(positions)) < n or len(positions) != len(set(positions))
     changes = False
@@ -155,7 +181,7 @@ def check(case, ctx):
     ctx.seen("mask", case, proper and changes,
              [f"op:{case['op']}", "mask:" + case["mask"]["kind"], f"opkind:{o.kind}", f"layout:{case.get('layout')}",
               "sel:empty" if not positions else ("sel:all" if len(set(positions)) == n else "sel:proper"),
-              f"repeats:{len(positions) != len(set(positions))}"])
+              f"repeats:{len(positions) != len(set(positions))}", f"prior_calls:{len(case.get('prior') or [])}"])
     # ---- relation 1: filter first
     if not positions:
         if o.kind == "red":
